@@ -434,5 +434,160 @@ theorem squeezeImg_mem (isnan : Nat → Bool) (w : Nat) (img : List (List (Optio
     | some v => simp [h] at hc; rw [hc]
   exact List.mem_of_getElem? this
 
+/-! ## proofs of the statements restated in `PewTheorems.C08` -/
+
+theorem pixIdx_near (j : Nat) (δ : Rat) (h1 : -(5 / 10000000) < δ) (h2 : δ < 5 / 10000000) :
+    pixIdx ((j : Rat) + δ) = (j : Int) := by
+  unfold pixIdx round6
+  have e : ((j : Rat) + δ) * 1000000 = (((j * 1000000 : Nat) : Int) : Rat) + δ * 1000000 := by
+    push_cast; ring
+  rw [e, roundHalfEven_near _ _ (by linarith) (by linarith)]
+  have : ((((j * 1000000 : Nat) : Int) : Rat)) / 1000000 = ((j : Int) : Rat) := by
+    push_cast; field_simp
+  rw [this, truncR_int]
+
+theorem pixIdx_aligned (o : Int) (u j : Nat) (hu : 0 < u) (δ : Rat)
+    (h1 : -(5 / 10000000) < δ) (h2 : δ < 5 / 10000000) :
+    pixIdx (quot o ((u : Rat) / 10000) (o + (j * u : Nat)) + δ) = (j : Int) := by
+  have hq : quot o ((u : Rat) / 10000) (o + (j * u : Nat)) = (j : Rat) := by
+    unfold quot
+    have hu' : (u : Rat) ≠ 0 := by exact_mod_cast hu.ne'
+    have : ((o + ((j * u : Nat) : Int) - o : Int) : Rat) = (j : Rat) * (u : Rat) := by push_cast; ring
+    rw [this]; field_simp
+  rw [hq]; exact pixIdx_near j δ h1 h2
+
+theorem segWrites_spec {α} (xs : List α) (g : Seg) (hax : g.y0 = g.y1 ∨ g.x0 = g.x1) :
+    ∃ w, segWrites xs g = some w ∧
+      ∀ (p : Int × Int) (v : α), (p, v) ∈ w ↔
+        ∃ k : Nat, k < min xs.length g.len ∧ p = g.cellAt (g.len - 1 - k) ∧ xs[xs.length - 1 - k]? = some v := by
+  unfold segWrites Seg.len Seg.cellAt
+  by_cases hy : g.y0 = g.y1
+  · simp only [hy, if_true]
+    refine ⟨_, rfl, ?_⟩
+    intro p v
+    obtain ⟨r, c⟩ := p
+    simp only [List.mem_map, Prod.mk.injEq]
+    have hlen : (max g.x0 g.x1 - min g.x0 g.x1).toNat = (g.x1 - g.x0).natAbs := by omega
+    constructor
+    · rintro ⟨⟨c', v'⟩, hm, ⟨rfl, rfl⟩, rfl⟩
+      obtain ⟨k, hk, hc, hv⟩ := (mem_place1 _ _ (by omega) _ xs c' v').mp hm
+      rw [hlen] at hk hc
+      refine ⟨k, hk, ?_, hv⟩
+      refine ⟨rfl, ?_⟩
+      rw [hc]; unfold travelCell
+      by_cases hf : g.x1 < g.x0
+      · simp [hf]; rw [if_neg (by omega)]; omega
+      · simp [hf]; rw [if_pos (by omega)]; omega
+    · rintro ⟨k, hk, ⟨rfl, hc⟩, hv⟩
+      refine ⟨(c, v), ?_, ⟨rfl, rfl⟩, rfl⟩
+      apply (mem_place1 _ _ (by omega) _ xs c v).mpr
+      rw [hlen]
+      refine ⟨k, hk, ?_, hv⟩
+      rw [hc]; unfold travelCell
+      by_cases hf : g.x1 < g.x0
+      · simp [hf]; rw [if_neg (by omega)]; omega
+      · simp [hf]; rw [if_pos (by omega)]; omega
+  · have hx : g.x0 = g.x1 := by rcases hax with h | h; exact absurd h hy; exact h
+    simp only [hy, if_false, hx, if_true]
+    refine ⟨_, rfl, ?_⟩
+    intro p v
+    obtain ⟨r, c⟩ := p
+    simp only [List.mem_map, Prod.mk.injEq]
+    have hlen : (max g.y0 g.y1 - min g.y0 g.y1).toNat = (g.y1 - g.y0).natAbs := by omega
+    constructor
+    · rintro ⟨⟨r', v'⟩, hm, ⟨rfl, rfl⟩, rfl⟩
+      obtain ⟨k, hk, hc, hv⟩ := (mem_place1 _ _ (by omega) _ xs r' v').mp hm
+      rw [hlen] at hk hc
+      refine ⟨k, hk, ?_, hv⟩
+      refine ⟨?_, rfl⟩
+      rw [hc]; unfold travelCell
+      by_cases hf : g.y1 < g.y0
+      · simp [hf]; rw [if_neg (by omega)]; omega
+      · simp [hf]; rw [if_pos (by omega)]; omega
+    · rintro ⟨k, hk, ⟨hc, rfl⟩, hv⟩
+      refine ⟨(r, v), ?_, ⟨rfl, rfl⟩, rfl⟩
+      apply (mem_place1 _ _ (by omega) _ xs r v).mpr
+      rw [hlen]
+      refine ⟨k, hk, ?_, hv⟩
+      rw [hc]; unfold travelCell
+      by_cases hf : g.y1 < g.y0
+      · simp [hf]; rw [if_neg (by omega)]; omega
+      · simp [hf]; rw [if_pos (by omega)]; omega
+
+
+theorem fill_blocks (bs : List Block)
+    (hbody : ∀ b ∈ bs, ∀ r ∈ b.body, r.seq = -1)
+    (hlow : ∀ b ∈ bs, -1 ≤ b.hdr.seq)
+    (hinc : bs.Pairwise (fun a b => a.hdr.seq ≤ b.hdr.seq)) :
+    List.zipWith setSeq (bs.flatMap Block.rows) (fillInts ((bs.flatMap Block.rows).map (·.seq)))
+      = bs.flatMap (fun b => b.rows.map (setSeq · b.hdr.seq)) := by
+  have key : ∀ (bs : List Block) (acc : Int), -1 ≤ acc → (∀ b ∈ bs, acc ≤ b.hdr.seq) →
+      (∀ b ∈ bs, ∀ r ∈ b.body, r.seq = -1) → bs.Pairwise (fun a b => a.hdr.seq ≤ b.hdr.seq) →
+      fillRowsAux acc (bs.flatMap Block.rows) = bs.flatMap (fun b => b.rows.map (setSeq · b.hdr.seq)) := by
+    intro bs
+    induction bs with
+    | nil => intros; rfl
+    | cons b rest ih =>
+      intro acc hacc hle hbody hinc
+      rw [List.pairwise_cons] at hinc
+      have hb := hle b (by simp)
+      simp only [List.flatMap_cons, Block.rows]
+      rw [List.cons_append, fillRowsAux]
+      have hm : max acc b.hdr.seq = b.hdr.seq := by omega
+      have hhead : (if b.hdr.seq = -1 then max acc b.hdr.seq else b.hdr.seq) = b.hdr.seq := by
+        split <;> omega
+      rw [hhead, hm, fillRowsAux_append]
+      have hblank := fillRowsAux_blank b.hdr.seq (by omega) b.body (hbody b (by simp))
+      rw [hblank.1, hblank.2]
+      rw [ih b.hdr.seq (by omega) (fun b' hb' => hinc.1 b' hb') (fun b' hb' => hbody b' (by simp [hb'])) hinc.2]
+      simp [Block.rows]
+  cases bs with
+  | nil => rfl
+  | cons b rest =>
+    rw [List.pairwise_cons] at hinc
+    have h0 := key (b :: rest) b.hdr.seq (hlow b (by simp))
+      (by intro b' hb'; rcases List.mem_cons.mp hb' with h | h
+          · subst h; exact le_refl _
+          · exact hinc.1 b' h)
+      hbody (List.pairwise_cons.mpr hinc)
+    rw [← h0]
+    simp only [List.flatMap_cons, Block.rows, List.cons_append, List.map_cons, fillInts, List.zipWith_cons_cons,
+      fillRowsAux]
+    rw [zipWith_fillAux]
+    congr 1
+    · simp [setSeq]
+    · congr 1; omega
+
+theorem select_blocks (bs : List Block) (sel : List Int)
+    (hbody : ∀ b ∈ bs, ∀ r ∈ b.body, r.seq = -1)
+    (hlow : ∀ b ∈ bs, -1 ≤ b.hdr.seq)
+    (hinc : bs.Pairwise (fun a b => a.hdr.seq ≤ b.hdr.seq)) :
+    selectRows (some sel) (bs.flatMap Block.rows)
+      = (bs.filter (fun b => sel.contains b.hdr.seq)).flatMap (fun b => b.rows.map (setSeq · b.hdr.seq)) := by
+  have hfill := fill_blocks bs hbody hlow hinc
+  unfold selectRows
+  simp only [hfill]
+  clear hfill
+  induction bs with
+  | nil => rfl
+  | cons b rest ih =>
+    rw [List.pairwise_cons] at hinc
+    simp only [List.flatMap_cons, List.filter_append, List.filter_cons]
+    rw [ih (fun b' hb' => hbody b' (by simp [hb'])) (fun b' hb' => hlow b' (by simp [hb'])) hinc.2]
+    by_cases hc : sel.contains b.hdr.seq = true
+    · rw [if_pos hc, List.flatMap_cons]
+      congr 1
+      rw [List.filter_eq_self]
+      intro r hr
+      obtain ⟨r0, _, rfl⟩ := List.mem_map.mp hr
+      simpa [setSeq] using hc
+    · rw [if_neg hc]
+      have : (b.rows.map (setSeq · b.hdr.seq)).filter (fun r => sel.contains r.seq) = [] := by
+        rw [List.filter_eq_nil_iff]
+        intro r hr
+        obtain ⟨r0, _, rfl⟩ := List.mem_map.mp hr
+        simpa [setSeq] using hc
+      rw [this]; rfl
+
 
 end Pew.Sync
